@@ -26,7 +26,7 @@ theorem mergeNC_compose_eqv (cur : Node) (p : Cst) (hc : WF cur = true) (hp : p.
     Value.eqv (den (mergeNC true cur p)) (Spec.compose (den cur) p.valueOf) = true := by
   have ⟨h1, h2⟩ := Impl.mergeNC_compose p cur hc hp hcomp
   rw [← h2]
-  exact eqv_refl _ (noDup_den _ h1)
+  exact eqv_refl_E _ (noDup_den _ h1)
 
 theorem mergeDocsC_compose (keys : List Bytes) (ob : NMembers) (pms : List (Bytes × Cst))
     (hw : WF (.doc keys ob) = true) (hp : (Cst.obj pms).valueOf.noDup = true)
